@@ -198,9 +198,10 @@ func ScaleTwistExtrude3D(sdf SDF2, height, twist float64, scale v2.Vec) SDF3 {
 	s.extrude = ScaleTwistExtrude(height, twist, scale)
 	// work out the bounding box
 	bb := sdf.BoundingBox()
-	bb = bb.Extend(Box2{bb.Min.Mul(scale), bb.Max.Mul(scale)})
-	// the twist sweeps the vertex furthest from the z-axis through any direction
+	// the twist sweeps the vertex furthest from the z-axis through any direction,
+	// the twisted profile is then scaled along the x/y axes
 	l := bb.Max.Abs().Max(bb.Min.Abs()).Length()
+	l *= math.Max(1, scale.Abs().MaxComponent())
 	s.bb = Box3{v3.Vec{-l, -l, -s.height}, v3.Vec{l, l, s.height}}
 	return &s
 }
